@@ -22,7 +22,7 @@ echo "== checks with the change applied to /repo" >> $log
 # which carries the same change, instead of applying the patch to /repo
 if [ -n "$SEED_VIA_WORKTREE" ]; then
   git -C /repo apply --check $out/patch.diff || { echo "PATCH DOES NOT APPLY" >> $log; cat $log; exit 1; }
-  export CNTGS_REPO=$wt; echo "(checks pointed at $wt through CNTGS_REPO)" >> $log
+  export CNTGS_REPO=${SEED_CHECK_REPO:-$wt}; echo "(checks pointed at $CNTGS_REPO through CNTGS_REPO)" >> $log
 else
   git -C /repo apply $out/patch.diff || { echo "PATCH DOES NOT APPLY" >> $log; cat $log; exit 1; }
 fi
